@@ -28,10 +28,24 @@ RULE = ('random portfolios x interval sizes (aligned and not aligned with the ho
         'the share with which a dispatch variable flows into a node (disp_factor: fuel per unit of power, transport efficiency, commodity factors) is compared between split and unsplit mapping variable by variable; '
         'one case in three: the split optimisation is also run through the shortcut eaopack.io.optimize(portf, timegrid, data, split_interval_size) on a portfolio object used before on ANOTHER grid '
         '(comp.history.grid_variants: shifted, shorter, longer, other zone / step / unit; use = grid set, set up, split set up, optimised with the shortcut, JSON round trip with the grid) - value, steps and columns of its dispatch table against the direct split path; '
+        'stream repeat (comp.splitrep, a fifth of the count of the other streams): horizons of m intervals of k steps (plus a shorter last one in 3 of 10 cases) whose intervals look alike in PART of their data and '
+        'differ in the rest - per case each of the categories cost data (prices, extra / transport / start / running costs), bound data (minimum / maximum capacities) and restriction data '
+        '(take quantities, fuel efficiency, fuel consumption when on / per start, conversion factor, heat share, minimum-load threshold) either REPEATS from interval to interval '
+        '(the profile of the first interval tiled over the horizon, or flat; one take quantity for all intervals) or is the INTERVAL\'S OWN (series per step or per interval, capacities times a factor per interval, '
+        'a take quantity per interval); mostly costs and bounds repeat and the restriction data are the interval\'s own; families: contracts / extended transports / multi-commodity contracts with take periods per interval '
+        '(the interval itself or the same sub-window of every interval; in 1 of 10 cases periods spanning intervals), plants / CHPs with fuel node and keyed parameters (LP and with on-variables, minimum times, starts, ramps), '
+        'storages with start = end level next to such contracts, mixed portfolios with scaled and structured assets, order books, storages; the coupling of the case (nothing / storages / takes / anything) selects the parts of the '
+        'statement that are demanded, as in the other streams; in addition every interval problem is set up and solved ON ITS OWN (fresh objects, interval grid derived from the whole grid, nothing of the split set-up or of '
+        'SplitOptimProblem involved): the split value must be the sum of these optima and the split optimisation must succeed exactly when every interval has one; for "anything" cases (also of the stream any) the concatenated solution '
+        'must satisfy the bounds of the unsplit problem and every row of it that touches variables of one interval only; '
         'non-trivial = at least 2 non-empty intervals and a non-zero value; distinct by scenario hash')
-ASSUMPTIONS = ['values compared with tolerance 2e-6 relative']
+ASSUMPTIONS = ['values compared with tolerance 2e-6 relative',
+               'stream repeat: "interval optimum" is read as the optimum of Portfolio.setup_optim_problem on the interval grid (Timegrid(start, end, freq, main_time_unit, ref_timegrid = whole grid), steps re-based to 0..) '
+               'with the data of the interval\'s steps - what the documentation of setup_split_optim_problem describes; a row of the unsplit problem counts as "coupling" exactly when it has non-zero coefficients at variables of two intervals']
 EXPLANATION = ('block-sum theorems; oracle on the real code compares split with unsplit (the unsplit reference in both accepted forms of the price data: dict of arrays and DataFrame), '
-               'and the result of the documented shortcut io.optimize(..., split_interval_size) on a portfolio with a history on another grid with the direct split path')
+               'and the result of the documented shortcut io.optimize(..., split_interval_size) on a portfolio with a history on another grid with the direct split path; '
+               'on horizons with recurring / flat price profiles and interval-specific restrictions (stream repeat) the split value is also compared with the sum of the optima of interval problems set up and solved independently of the split set-up, '
+               'and the concatenated solution with every bound and non-coupling row of the unsplit problem')
 
 
 def scenarios(seed, tier):
@@ -128,7 +142,7 @@ def scenarios(seed, tier):
     yield from EN.stream(seed, n // 8, ('io_split',), tmax=10 if tier == 'quick' else 16)
     # intervals that look alike in part of their data (recurring / flat price profiles, the same capacities) and differ in the rest
     # (take quantities per interval, efficiencies, capacities): comp/splitrep.py
-    yield from SR.stream(seed, n // 4)
+    yield from SR.stream(seed, n // 5)
     # the split set-up of portfolios of the five contract / transport builders against its model, the decidable hypotheses of
     # EAO.C14B.split_witness_builders against the witness evaluated on the REAL problems (comp/splitbuild.py)
     rnd_sb = random.Random(seed * 104729 + 1414)
